@@ -187,6 +187,17 @@ func gen(seed int64, n int, tier string) []interface{} {
 					}
 				}
 			}
+			if r.Intn(4) == 0 { // used only as the receiver of a static FIELD access
+				for j := range f.Unit.Members {
+					m := &f.Unit.Members[j]
+					if m.Kind == "method" && f.Unit.Kind == "class" {
+						e := javagen.Expr{K: "sfield", Recv: "File", Text: "separator", Args: []javagen.Expr{}}
+						m.Body = append([]javagen.Stmt{{K: "decl", Type: "String", Name: "sepv", E: &e}}, m.Body...)
+						add(javagen.Import{Pkg: "java.io", Name: "File"})
+						break
+					}
+				}
+			}
 			if r.Intn(3) == 0 { // static receivers the random bodies use
 				add(javagen.Import{Pkg: "java.util", Name: "Collections"})
 			}
